@@ -922,3 +922,40 @@ def spec_unique_prefix(fns, consts):
 
 
 SPECS["C08"] = [spec_unique_prefix]
+
+
+# ------------------------------------------------------------------ C06: sources are reported honestly
+
+def spec_value_sources(fns, consts):
+    """Parser::add_default_value / add_defaults record values ONLY as ValueSource::DefaultValue and
+    Parser::add_env ONLY as ValueSource::EnvVariable: on every path (loop bodies explored once, cut at
+    the back edge) each call that stores a value (`react`, `start_custom_arg`) receives that variant."""
+    con = contracts.Contracts(fns, default_pure=True)
+    ctx = symex.Ctx(consts, con)
+    obs, enc = [], []
+    for fname, want in (("add_default_value", "DefaultValue"), ("add_env", "EnvVariable")):
+        fn = _find(fns, "parser/parser.rs", fname)
+        args = [("opq", "self")] + [("opq", f"a{i}") for i in range(len(fn.params) - 1)]
+        ex = symex.Exec(ctx, fn, args)
+        ex.run(havoc_unassigned=True, cut_loops=True)
+        paths = [(pc, ca) for (pc, _), ca in zip(ex.returns, ex.return_callargs)] + [(pc, env.get("#callargs", ())) for pc, env in ex.cuts]
+        n_store = 0
+        for pc, ca in paths:
+            for callee, argkeys, _ in ca:
+                if not re.search(r"Parser::<'_>::(react|start_custom_arg)$", callee):
+                    continue
+                n_store += 1
+                src = [k for k in argkeys if k.startswith("variant:ValueSource::")]
+                ok = len(src) == 1 and src[0] == f"variant:ValueSource::{want}()"
+                obs.append({"fn": fn.name, "block": "call", "kind": "spec", "target": "value_sources",
+                            "msg": f"{fname}: values are recorded as {want}" + ("" if ok else f" (found {src})"), "pc": list(pc), "neg": "false" if ok else "true"})
+        if n_store == 0:
+            raise Unsupported(f"{fname}: no value-storing call found (vacuous)")
+        enc.append(_enc(fn, ex, len(paths)))
+    for o in obs:
+        o.setdefault("target", "value_sources")
+    return ctx, obs, enc, con
+
+
+SPECS["C06"].append(spec_value_sources)
+SPECS["C03"].append(spec_value_sources)
